@@ -10,6 +10,7 @@
 package main
 
 import (
+	"bytes"
 	"encoding/binary"
 	"encoding/json"
 	"flag"
@@ -69,6 +70,8 @@ func main() {
 		os.Exit(cmdWorker(os.Args[2:]))
 	case "replay":
 		os.Exit(cmdReplay(os.Args[2:]))
+	case "probe":
+		os.Exit(cmdProbe(os.Args[2:]))
 	case "list":
 		ids := []string{}
 		for id := range props.All {
@@ -251,6 +254,16 @@ func finalize(p *props.Property, ctx *props.Ctx, t *tape.Tape, v *report.Violati
 	if vt == nil {
 		vt = t.Values()
 	}
+	if p.FreshProcessReplay {
+		// a violation that consists of a one-time write to process-wide state
+		// (a lazily filled table, a cache) cannot fire twice in one process:
+		// the parent confirms and shrinks it in fresh child processes
+		v.Tape, v.TapeLen0 = vt, len(vt)
+		if v.Signature == "" {
+			v.Signature = v.Invariant
+		}
+		return v, ""
+	}
 	same := func(c []uint64) *report.Violation {
 		v2 := p.Run(q, tape.Replay(c))
 		q.TakeDigest()
@@ -394,6 +407,23 @@ func cmdRun(args []string) int {
 		}
 		return viols[i].Case < viols[j].Case
 	})
+	if p.FreshProcessReplay {
+		done := map[string]bool{}
+		var keep []*report.Violation
+		for _, v := range viols {
+			if done[v.Invariant] {
+				continue
+			}
+			done[v.Invariant] = true
+			fv, note := shrinkInChildren(p, v, *repo)
+			if fv == nil {
+				trouble = append(trouble, note)
+				continue
+			}
+			keep = append(keep, fv)
+		}
+		viols = keep
+	}
 	known, err := report.LoadKnown(filepath.Join(*verif, "known_findings.json"))
 	if err != nil {
 		trouble = append(trouble, "known_findings.json: "+err.Error())
@@ -486,6 +516,90 @@ func cmdRun(args []string) int {
 		return 2
 	}
 	return 0
+}
+
+// probeChild runs one tape in a fresh process and returns the violation it
+// produced, if it is the wanted invariant.
+func probeChild(p *props.Property, tier, repo, invariant string, tp []uint64) *report.Violation {
+	in, _ := json.Marshal(map[string]interface{}{"tape": tp})
+	cmd := exec.Command(os.Args[0], "probe", "-prop", p.ID, "-tier", tier, "-repo", repo)
+	cmd.Stdin = bytes.NewReader(in)
+	cmd.Env = append(os.Environ(), "GOMAXPROCS=2")
+	out, err := cmd.Output()
+	if err != nil && len(out) == 0 {
+		return nil
+	}
+	var v report.Violation
+	if json.Unmarshal(out, &v) != nil || v.Invariant != invariant {
+		return nil
+	}
+	return &v
+}
+
+func shrinkInChildren(p *props.Property, v *report.Violation, repo string) (*report.Violation, string) {
+	if probeChild(p, v.Tier, repo, v.Invariant, v.Tape) == nil {
+		return nil, fmt.Sprintf("NONDETERMINISTIC: case %d of %s fired %s (%s) but its tape does not reproduce it in a fresh process", v.Case, p.ID, v.Invariant, v.Message)
+	}
+	shrunk, evals := tape.Shrink(v.Tape, func(c []uint64) bool { return probeChild(p, v.Tier, repo, v.Invariant, c) != nil }, 400, 90*time.Second)
+	fv := probeChild(p, v.Tier, repo, v.Invariant, shrunk)
+	if fv == nil {
+		fv, shrunk = probeChild(p, v.Tier, repo, v.Invariant, v.Tape), v.Tape
+		if fv == nil {
+			return nil, "NONDETERMINISTIC: shrunk tape of " + v.Invariant + " stopped reproducing"
+		}
+	}
+	fv.Tape = shrunk
+	fv.Tier, fv.Seed, fv.Case, fv.CaseSeed = v.Tier, v.Seed, v.Case, v.CaseSeed
+	fv.Shrunk, fv.ShrinkRun, fv.TapeLen0 = true, evals, len(v.Tape)
+	if fv.Signature == "" {
+		fv.Signature = fv.Invariant
+	}
+	return fv, ""
+}
+
+// cmdProbe runs the tape given on stdin once and prints the violation (JSON)
+// it produces, if any.
+func cmdProbe(args []string) int {
+	fs := flag.NewFlagSet("probe", flag.ExitOnError)
+	propID := fs.String("prop", "", "")
+	tier := fs.String("tier", "quick", "")
+	repo := fs.String("repo", "/repo", "")
+	fs.Parse(args)
+	world.RepoDir = *repo
+	p := props.All[*propID]
+	if p == nil {
+		return 2
+	}
+	var in struct {
+		Tape []uint64 `json:"tape"`
+	}
+	if err := json.NewDecoder(os.Stdin).Decode(&in); err != nil {
+		return 2
+	}
+	realStdout := os.Stdout
+	devNullStdout()
+	var corpus []world.File
+	if p.NeedsCorpus {
+		var err error
+		if corpus, err = world.LoadCorpus(); err != nil {
+			return 2
+		}
+	}
+	var beacon uint64
+	ctx := props.NewCtx(*tier, nil, corpus, &beacon)
+	done := make(chan *report.Violation, 1)
+	go func() { done <- p.Run(ctx, tape.Replay(in.Tape)) }()
+	select {
+	case v := <-done:
+		if v == nil {
+			return 1
+		}
+		b, _ := json.Marshal(v)
+		realStdout.Write(b)
+		return 0
+	case <-time.After(60 * time.Second):
+		return 2
+	}
 }
 
 // ---------------------------------------------------------------------------
